@@ -234,7 +234,36 @@ func buildPregel(r *lib.Rng, z *zoo) (*object, error) {
 		compose.WithCallbacks(sharedHandler("so")),
 		compose.WithCallbacks(sharedHandler("sd")).DesignateNode(par[0]),
 	}
+	// what was built, for the model
+	d := &dGraph{max: 30}
+	d.node("a", fn1("FV", "a"), 0)
+	d.node("w", fn1("FLoop", "w"), -1)
+	if failing {
+		d.node("f", "(FFail "+q("f")+" 3%Z)", -1)
+	} else {
+		d.node("f", fn1("FV", "f"), -1)
+	}
+	d.node("j", fn1("FJoinV", "j"), -1)
+	d.edge(compose.START, "a")
+	d.edge("a", "w")
+	d.branch("w", "BLoop", "w", "f")
+	for _, k := range par {
+		d.node(k, fn1("FV", k), 0, "out="+k)
+		d.edge("f", k)
+		d.edge(k, "j")
+	}
+	d.edge("j", compose.END)
+	mshared := []string{opT(0, "S", keysAsPaths("a", par[0])...)}
 	return &object{
+		desc: d,
+		mcall: func(sp spec, si int) string {
+			max := 0
+			if sp.Opt&optMaxSteps != 0 {
+				max = 5
+			}
+			return callTerm(vR(selfTag, 0, lims[sp.In%len(lims)], fmt.Sprintf("in%d", sp.In)),
+				mWithShared(sp.Opt, mshared, mLambdaOpts(si, sp.Opt, des...)), max)
+		},
 		kind: "pregel", shape: []string{fmt.Sprintf("width:%d", w), fmt.Sprintf("failing:%v", failing)},
 		nIn: len(lims), paras: allParas,
 		optSet: []int{0, optLambdaDesignated, optLambdaGlobal, optCbGlobal, optCbThree | optCbDesignated, optMaxSteps,
@@ -269,6 +298,7 @@ func buildDag(r *lib.Rng, z *zoo) (*object, error) {
 	var prev []string
 	var all []string
 	var widths []string
+	d := &dGraph{dag: true}
 	branchLayer := -1
 	if layers >= 3 && r.Chance(2, 3) {
 		branchLayer = r.Range(1, layers-2)
@@ -289,10 +319,12 @@ func buildDag(r *lib.Rng, z *zoo) (*object, error) {
 			} else {
 				must.add(g.AddLambdaNode(k, compose.InvokableLambdaWithOption(z.nodeM(k))))
 			}
+			d.node(k, fn1("FM", k), 0)
 		}
 		if l == 0 {
 			for _, k := range cur {
 				must.add(g.AddEdge(compose.START, k))
+				d.edge(compose.START, k)
 			}
 		} else if l == branchLayer+1 && branchLayer >= 0 {
 			// the first node of the previous layer chooses ONE node of this layer; the other nodes
@@ -310,10 +342,12 @@ func buildDag(r *lib.Rng, z *zoo) (*object, error) {
 				see(ctx, "branch "+src, s)
 				return targets[len(s)%len(targets)], nil
 			}, ends)))
+			d.branch(src, "(BLenMod "+q(src)+" "+lib.CoqStrList(targets)+")", targets...)
 			for _, p := range prev[1:] {
 				for _, k := range cur {
 					if r.Chance(1, 2) {
 						must.add(g.AddEdge(p, k))
+						d.edge(p, k)
 					}
 				}
 			}
@@ -324,16 +358,20 @@ func buildDag(r *lib.Rng, z *zoo) (*object, error) {
 				p := prev[r.Intn(len(prev))]
 				used[p] = true
 				must.add(g.AddEdge(p, k))
+				d.edge(p, k)
 				for _, q := range prev {
 					if q != p && r.Chance(1, 3) {
 						used[q] = true
 						must.add(g.AddEdge(q, k))
+						d.edge(q, k)
 					}
 				}
 			}
 			for _, p := range prev {
 				if !used[p] {
-					must.add(g.AddEdge(p, cur[r.Intn(len(cur))]))
+					t := cur[r.Intn(len(cur))]
+					must.add(g.AddEdge(p, t))
+					d.edge(p, t)
 				}
 			}
 		}
@@ -341,6 +379,7 @@ func buildDag(r *lib.Rng, z *zoo) (*object, error) {
 	}
 	for _, k := range prev {
 		must.add(g.AddEdge(k, compose.END))
+		d.edge(k, compose.END)
 	}
 	if must.err != nil {
 		return nil, must.err
@@ -359,7 +398,13 @@ func buildDag(r *lib.Rng, z *zoo) (*object, error) {
 		compose.WithLambdaOption(lopt{Val: "SG"}),
 		compose.WithCallbacks(sharedHandler("sd")).DesignateNode(all[len(all)-1]),
 	}
+	mshared := []string{opT(0, "S", []string{all[0]}), opT(0, "SG")}
 	return &object{
+		desc: d,
+		mcall: func(sp spec, si int) string {
+			return callTerm(vM("id", vS(selfTag), "x", vS(strings.Repeat("x", sp.In+1))),
+				mWithShared(sp.Opt, mshared, mLambdaOpts(si, sp.Opt, des...)), 0)
+		},
 		kind: "dag", shape: []string{"layers:" + fmt.Sprint(layers), "widths:" + strings.Join(widths, "-"), fmt.Sprintf("branch:%v", branchLayer >= 0)},
 		nIn: 4, paras: allParas,
 		optSet:  []int{0, optLambdaDesignated, optLambdaGlobal, optCbGlobal, optCbThree | optCbDesignated, optCtxHandlers | optCbDesignated, optCbThree | optLambdaGlobal, optShared, optShared | optLambdaDesignated | optCbGlobal},
@@ -445,7 +490,29 @@ func buildWorkflow(r *lib.Rng, z *zoo) (*object, error) {
 		compose.WithCallbacks(sharedHandler("so")),
 	}
 	cd := codec[WIn, WOut]{chunkIn: oneChunk[WIn], concatOut: lastOf[WOut], render: func(o WOut) string { return fmt.Sprintf("WOut{%s|%s|%s}", o.ID, o.P, o.Q) }}
+	d := &dGraph{dag: true}
+	d.node("l", "FWfL", 0)
+	d.node("r", "FWfR", -1)
+	d.node("m", "FWfM", 0)
+	d.edge(compose.START, "l")
+	d.edge(compose.START, "r")
+	d.edge(compose.START, "m")
+	d.edge("l", "m")
+	d.edge("r", "m")
+	d.edge("m", compose.END)
+	d.fmap(compose.START, "l", [2]string{"ID", "ID"}, [2]string{"A", "A"})
+	d.fmap(compose.START, "r", [2]string{"B", ""})
+	d.fmap("l", "m", [2]string{"", "X"})
+	d.fmap("r", "m", [2]string{"v", "Y"})
+	d.fmap(compose.START, "m", [2]string{"ID", "ID"})
+	d.statics = append(d.statics, [3]string{"m", "S", "static"})
+	mshared := []string{opT(0, "S", []string{"l"}, []string{"m"})}
 	return &object{
+		desc: d,
+		mcall: func(sp spec, si int) string {
+			return callTerm(vM("A", vS(fmt.Sprintf("a%d", sp.In)), "B", vS(fmt.Sprintf("b%d", sp.In*7)), "ID", vS(selfTag)),
+				mWithShared(sp.Opt, mshared, mLambdaOpts(si, sp.Opt, "l", "m")), 0)
+		},
 		kind: "workflow", shape: []string{"wf:mapped"},
 		nIn: 4, paras: allParas,
 		optSet:  []int{0, optLambdaDesignated, optLambdaGlobal, optCbGlobal, optCbThree | optCbDesignated, optCtxHandlers, optShared, optShared | optLambdaGlobal | optCbDesignated},
